@@ -42,7 +42,7 @@ def encXRBlocks : List XRBlock → Out Bytes
     let rest ← encXRBlocks bs
     pure (a ++ rest)
 
-def XR.wireSize (x : XR) : Nat := 4 + ((x.blocks.map XRBlock.wireSize).foldl (· + ·) 0)
+def XR.wireSize (x : XR) : Nat := 4 + ((x.blocks.map XRBlock.wireSize).sum)
 
 def XR.marshalSize (x : XR) : Nat := headerLength + x.wireSize
 
